@@ -222,6 +222,10 @@ func H_C16_nodefault(v *V) {
 	d := &c16ND{}
 	p := NewNamedParser("prog", HelpFlag)
 	p.AddGroup("Application Options", "", d)
+	// one arbitrary printable character in a description beside a default
+	D := v.String(1)
+	v.Assume(D[0] > ' ' && D[0] < 0x7f)
+	p.FindOptionByLongName("host").Description = "DHOST" + D + "s"
 	var argv []string
 	if v.Choice(2) == 1 {
 		argv = append(argv, "--host=zz"+T)
@@ -236,7 +240,7 @@ func H_C16_nodefault(v *V) {
 	out := err.Error()
 	v.Reach("help")
 	v.ObserveStr("help", out)
-	v.Assert(v.Contains(out, "DTOKEN") && v.Contains(out, "DPORT") && v.Contains(out, "DHOST (default: localhost)"), "descriptions are listed, the declared default beside its description")
+	v.Assert(v.Contains(out, "DTOKEN") && v.Contains(out, "DPORT") && v.Contains(out, "DHOST"+D+"s (default: localhost)"), "descriptions are listed, the declared default beside its description")
 	v.Assert(!v.Contains(out, "qq"+T) && !v.Contains(out, "8123") && !v.Contains(out, "zz"+T), "a value given on the command line is not presented as a default")
 	v.Assert(!v.Contains(out, "DTOKEN (default") && !v.Contains(out, "DPORT (default"), "an option without default shows none")
 	v.Assert(v.Contains(c16Dewrap(out), c16LongDefault+")"), "a default longer than the description column is shown completely (hard breaks undone)")
